@@ -44,6 +44,9 @@ def plan(ctx, prop):
             if q:
                 if ci < 2:
                     add("asan", asan, ["--mode", "perm", "--n", 7, "--type", t, "--cfg", cfg, "--seed", sd], "perm n7 %s cfg%d" % (TN[t], cfg))
+                if ci == 0:
+                    for first in range(8):
+                        add("plain", plain, ["--mode", "perm", "--n", 8, "--first", first, "--type", t, "--cfg", cfg, "--seed", sd], "perm n8 first%d %s cfg%d" % (first, TN[t], cfg))
             else:
                 if ci < 2:
                     for first in range(8):
@@ -54,7 +57,7 @@ def plan(ctx, prop):
                 else:
                     add("asan", asan, ["--mode", "perm", "--n", 7, "--type", t, "--cfg", cfg, "--seed", sd], "perm n7 %s cfg%d" % (TN[t], cfg))
             # (iii) random adversarial runs
-            sizes = [(24, 60000), (300, 60000), (4000, 40000)] if q else [(16, 600000), (200, 600000), (3000, 600000), (40000, 400000), (100000, 300000)]
+            sizes = [(24, 150000), (300, 150000), (4000, 60000)] if q else [(16, 600000), (200, 600000), (3000, 600000), (40000, 400000), (100000, 300000)]
             for (maxn, ops) in sizes:
                 if t == 0 and maxn > 300:
                     continue
